@@ -8,6 +8,20 @@ use serde::{Deserialize, Serialize};
 pub use stream::{EventStreamMessage, EventStreamSender, start_event_streaming};
 pub use write::JournalWriter;
 
+#[cfg(feature = "verif")]
+pub use stream::{EventStreamReceiver, verif_streaming_process};
+
+/// Verification hook: access to the private journal pruning function.
+#[cfg(feature = "verif")]
+pub fn verif_prune_journal(
+    reader: &mut JournalReader,
+    writer: &mut JournalWriter,
+    live_job_ids: &tako::Set<tako::JobId>,
+    live_worker_ids: &tako::Set<tako::WorkerId>,
+) -> crate::Result<()> {
+    prune::prune_journal(reader, writer, live_job_ids, live_worker_ids)
+}
+
 const HQ_JOURNAL_HEADER: &[u8] = b"hqjl0002";
 
 const HQ_JOURNAL_VERSION_MAJOR: u32 = 26;
